@@ -18,7 +18,7 @@
 //   0 or 1, counts[0] may be non-zero, and the code may be over-subscribed.
 use super::*;
 
-pub(crate) const MAXV: usize = 3;
+pub(crate) const MAXV: usize = 6;
 
 /// `Vec::push` for a Vec whose capacity is known to suffice: `build` pushes into
 /// `Vec::with_capacity(values.len())` at most values.len() - 1 times (huffman.rs:34,43). Every `push` drags
@@ -82,15 +82,16 @@ fn push_model_contract() {
 // ------------------------------------------------------------------------------------------------
 // T.81 Annex C
 // ------------------------------------------------------------------------------------------------
-pub(crate) struct SpecTable {
-    pub ehufsi: [u8; 256],
-    pub ehufco: [u32; 256],
+/// EHUFSI(v), EHUFCO(v) of T.81 Figure C.3 for one symbol value v (size 0 = no code)
+pub(crate) struct SpecEntry {
+    pub size: u8,
+    pub code: u32,
 }
 
 /// `bits[i]`, i in 1..=16: number of codes of length i (BITS); `huffval[..n]`: symbols in code order, the
-/// last of the n entries being the sentinel that gets a code but no table entry. Requires n >= 1, n <= MAXV,
+/// last of the n entries being the sentinel that gets a code but no table entry. Requires 1 <= n <= MAXV,
 /// sum(bits[1..=16]) == n.
-pub(crate) fn spec_jpeg_canonical_code(bits: &[u8; 17], huffval: &[u8], n: usize) -> SpecTable {
+pub(crate) fn spec_jpeg_canonical_code(bits: &[u8; 17], huffval: &[u8], n: usize, v: u8) -> SpecEntry {
     // Figure C.1 -- Generate_size_table
     let mut huffsize = [0u8; MAXV + 1];
     let mut k = 0usize;
@@ -131,20 +132,33 @@ pub(crate) fn spec_jpeg_canonical_code(bits: &[u8; 17], huffval: &[u8], n: usize
             }
         }
     }
-    // Figure C.3 -- Order_codes (all entries but the sentinel)
-    let mut t = SpecTable { ehufsi: [0; 256], ehufco: [0; 256] };
+    // Figure C.3 -- Order_codes: for K = 0 .. LASTK-1 in order: EHUFCO(HUFFVAL(K)) = HUFFCODE(K),
+    // EHUFSI(HUFFVAL(K)) = HUFFSIZE(K) -- evaluated for the one symbol v; the sentinel (last entry) is skipped
+    let mut e = SpecEntry { size: 0, code: 0 };
     let mut k = 0usize;
     while k + 1 < lastk {
-        let v = huffval[k] as usize;
-        t.ehufco[v] = huffcode[k];
-        t.ehufsi[v] = huffsize[k];
+        if huffval[k] == v {
+            e = SpecEntry { size: huffsize[k], code: huffcode[k] };
+        }
         k += 1;
     }
     let _ = n;
-    t
+    e
 }
 
-fn any_code_in_parser_range(maxv: usize) -> HuffmanCode {
+/// a table with one known entry (for obligations in scan.rs, which cannot see BuiltHuffmanTable's fields):
+/// symbol `sym` has code (len, bits); every other symbol has no code
+pub(crate) fn table_with(sym: u8, len: u8, bits: u64) -> BuiltHuffmanTable {
+    let mut lengths = vec![0u8; 256];
+    let mut b = vec![0u64; 256];
+    lengths[sym as usize] = len;
+    b[sym as usize] = bits;
+    BuiltHuffmanTable { lengths, bits: b }
+}
+
+/// any HuffmanCode the parser can return that has exactly N values (N concrete: a symbolic Vec length makes
+/// every allocation in `build` an object of symbolic size, which CBMC does not survive)
+fn any_code_in_parser_range<const N: usize>() -> HuffmanCode {
     let counts: [u8; 17] = kani::any();
     let mut sum = 0usize;
     let mut i = 0;
@@ -152,10 +166,9 @@ fn any_code_in_parser_range(maxv: usize) -> HuffmanCode {
         sum += counts[i] as usize;
         i += 1;
     }
-    kani::assume(sum <= maxv);
-    let raw: [u8; MAXV] = kani::any();
-    let mut values = raw.to_vec();
-    values.truncate(sum);
+    kani::assume(sum == N);
+    let raw: [u8; N] = kani::any();
+    let values = raw.to_vec();
     let id: u8 = kani::any();
     kani::assume(id <= 3);
     HuffmanCode { is_ac: kani::any(), id, is_last: kani::any(), counts, values }
@@ -167,11 +180,11 @@ fn any_code_in_parser_range(maxv: usize) -> HuffmanCode {
 // ------------------------------------------------------------------------------------------------
 fn check_table_against_spec(hc: &HuffmanCode, t: &BuiltHuffmanTable) {
     let n = hc.values.len();
-    let spec = spec_jpeg_canonical_code(&hc.counts, &hc.values, n);
     assert!(t.lengths.len() == 256 && t.bits.len() == 256, "[C17,C01] one entry per symbol value");
     let v: u8 = kani::any(); // one symbolic symbol == all 256
-    let sz = spec.ehufsi[v as usize];
-    let code = spec.ehufco[v as usize] as u64;
+    let spec = spec_jpeg_canonical_code(&hc.counts, &hc.values, n, v);
+    let sz = spec.size;
+    let code = spec.code as u64;
     assert!(t.lengths[v as usize] == sz, "[C17] code length of symbol v == EHUFSI(v) (T.81 C.1, C.3); 0 = no code");
     if sz > 0 {
         assert!(sz <= 16, "[C17] DHT code lengths are 1..=16");
@@ -191,20 +204,30 @@ fn check_table_against_spec(hc: &HuffmanCode, t: &BuiltHuffmanTable) {
     kani::cover!(sz == 16);
     kani::cover!(sz == 1 && code == 1);
     kani::cover!(sz == 0);
-    kani::cover!(n == MAXV);
 }
 
-#[kani::proof]
-#[kani::unwind(18)]
-#[kani::stub(std::vec::Vec::push, push_model)]
-#[kani::stub(<[u8]>::fill, fill_model)]
-fn build_matches_annex_c() {
-    let hc = any_code_in_parser_range(MAXV);
-    kani::assume(hc.values.len() >= 2); // at least one symbol + the sentinel (libjxl rejects anything else)
+fn build_matches_annex_c<const N: usize>() {
+    let hc = any_code_in_parser_range::<N>(); // N >= 2: at least one symbol + the sentinel (libjxl rejects anything else)
     kani::assume(hc.counts[0] == 0); // no code of length 0
     let t = hc.build();
     check_table_against_spec(&hc, &t);
 }
+
+macro_rules! annex_c_proof {
+    ($name:ident, $n:expr) => {
+        #[kani::proof]
+        #[kani::unwind(18)]
+        #[kani::stub(std::vec::Vec::push, push_model)]
+        #[kani::stub(<[u8]>::fill, fill_model)]
+        fn $name() {
+            build_matches_annex_c::<$n>();
+        }
+    };
+}
+annex_c_proof!(build_matches_annex_c_2, 2);
+annex_c_proof!(build_matches_annex_c_3, 3);
+annex_c_proof!(build_matches_annex_c_4, 4);
+annex_c_proof!(build_matches_annex_c_5, 5);
 
 // ------------------------------------------------------------------------------------------------
 // totality of build / encoded_len / lookup on EVERYTHING the parser can return (see the header comment)
@@ -213,7 +236,7 @@ fn build_matches_annex_c() {
 #[kani::unwind(18)]
 #[kani::stub(std::vec::Vec::push, push_model)]
 fn build_total_on_parser_range() {
-    let hc = any_code_in_parser_range(MAXV);
+    let hc = any_code_in_parser_range::<2>();
     let n = hc.values.len();
     let _ = hc.encoded_len();
     let t = hc.build(); // must not panic (C01/C17: hostile reconstruction data produce an error, not a panic)
